@@ -166,7 +166,7 @@ def _from_dict_classes(ctx, mod, t: str, shape: str) -> Set[str]:
         return None
 
     al[CALL(N("safe_snake_case"), N("$key"))] = N("$fname")
-    i = Interp(mod, bindings=b, aliases=al, loop_roles=roles, assume=assume)
+    i = Interp(mod, bindings=b, aliases=al, loop_roles=roles, assume=assume, fork_ifexp=True)
     paths = i.run(fn)
     ctx.count(len(paths))
     classes: Set[str] = set()
